@@ -1098,6 +1098,11 @@ class Server:
         self.service_records = {}  # Service records maps, by record handle
         self.channel = None
         self.current_response = None  # Current response data, used for continuations
+        # Unsent remainder of the response for each client other than the one whose
+        # request is being served, by channel
+        self.pending_responses: dict[
+            l2cap.ClassicChannel, bytes | tuple[int, list[int]]
+        ] = {}
 
     def register(self, l2cap_channel_manager: l2cap.ChannelManager) -> None:
         l2cap_channel_manager.create_classic_server(
@@ -1127,8 +1132,26 @@ class Server:
         return matching_services
 
     def on_connection(self, channel):
+        # Each client is served on its own channel, with its own continuation state
+        channel.sink = lambda pdu: self.on_channel_pdu(channel, pdu)
+        channel.on(channel.EVENT_CLOSE, lambda: self.on_channel_close(channel))
+
+    def on_channel_close(self, channel):
+        self.pending_responses.pop(channel, None)
+        if self.channel is channel:
+            self.channel = None
+
+    def on_channel_pdu(self, channel, pdu):
+        # Respond on the channel the request came from, and continue the response
+        # that was started for that client
         self.channel = channel
-        self.channel.sink = self.on_pdu
+        self.current_response = self.pending_responses.pop(channel, None)
+        try:
+            self.on_pdu(pdu)
+        finally:
+            if self.current_response is not None:
+                self.pending_responses[channel] = self.current_response
+                self.current_response = None
 
     def on_pdu(self, pdu):
         try:
